@@ -145,24 +145,30 @@ PROPS = {
                       "integers (A1), type_promotion table uninterpreted, min/max(key=_val) as a choice function.",
     },
     "C10": {
-        "modules": [],
-        "claim_level": "bounded",
+        "modules": ["contracts.c10_modify"],
+        "claim_level": "other",
         "design_ref": "6.10",
-        "technique": "bounded stand-in on the real code (exhaustive over an enumerated operation space against a reference "
-                     "implementation of the SPARQL 1.1 Update semantics); no function of update.py is under a proved "
-                     "contract yet",
-        "clauses_decided": [],
-        "clauses_not_decided": [
-            "all clauses: evalModify / evalDeleteWhere / evalInsertData / evalDeleteData / evalClear / evalDrop / evalAdd / "
-            "evalMove / evalCopy operate on the engine's QueryContext, the algebra CompValue tree and Graph-level "
-            "operators; bringing them under PyVC contracts needs the Graph contracts of C01/C02 composed with a model of "
-            "QueryContext - not done; bounded only",
+        "technique": TECH,
+        "clauses_decided": [
+            "DELETE/INSERT ... WHERE (evalModify, without USING): the WHERE clause is evaluated exactly once and before any "
+            "write; every `graph -= instantiated delete template` happens while no insertion has happened yet, i.e. the "
+            "deletions of ALL solutions precede every insertion (proved: ghost flags `inserted` / `evaluated`, loop "
+            "invariants attached to the loops of the real source by what they write)",
         ],
-        "explanation": "Reference semantics on a plain dict model of the dataset, 44 operations + operation pairs, both "
-                       "settings of the engine's default-graph-is-union switch.",
+        "clauses_not_decided": [
+            "which triples the instantiated templates contain (_fillTemplate: unbound / illegal terms skipped, fresh blank "
+            "nodes per solution), which graph a template addresses (WITH, GRAPH ?g, default graph vs union), INSERT/DELETE "
+            "DATA, DELETE WHERE, CLEAR, DROP, ADD, MOVE, COPY and the order of operations in a request: bounded stand-in "
+            "only (reference implementation of the Update semantics on a dict model of the dataset)",
+            "USING / USING NAMED / LOAD (external documents)",
+        ],
+        "explanation": "The ordering clause is a property of one function's control flow and is proved with ghost state; "
+                       "the data-level clauses are compared with a reference implementation (bounded).",
         "assumptions": A_COMMON,
-        "level_text": "Bounded only: exhaustive over the enumerated operations x datasets x switch settings.",
-        "level_note": "Nothing proved; the reference implementation in bounded/c10.py is trusted as the oracle.",
+        "level_text": "Proof of the evaluate-once / deletions-before-insertions clause for all updates; all data-level "
+                      "clauses bounded (44 operations + pairs x 4 datasets x 3 switch settings); 'other'.",
+        "level_note": "Trusted: evalPart/_fillTemplate/get_context as effect-free external functions; set effect of "
+                      "Graph += / -= from C01.",
     },
     "C11": {
         "modules": ["contracts.c11_paths"],
@@ -401,7 +407,7 @@ PROPS = {
                       "only as far as they are ordinary method calls.",
     },
     "C15": {
-        "modules": ["contracts.c15_prepared"],
+        "modules": ["contracts.c15_prepared", "contracts.c04_expr"],
         "extra": [{"kind": "venv", "name": "frame-checker", "script": "tools/frame_check.py", "args": ["--prop", "C15"]}],
         "claim_level": "other",
         "design_ref": "6.15",
